@@ -54,6 +54,16 @@ func (hs *SimpleHotStuff) VoteRule(view hotstuff.View, proposal hotstuff.Propose
 		return false
 	}
 
+	// Voting for the block obliges the replica to lock on the parent's parent (CommitRule does
+	// that). If that block is neither stored nor obtainable from the other replicas, the lock
+	// cannot be updated, and a later vote could contradict this one.
+	if h := parent.QuorumCert().BlockHash(); h != (hotstuff.Hash{}) {
+		if _, ok := hs.blockchain.Get(h); !ok {
+			hs.logger.Info("VoteRule: missing block to lock on: ", h)
+			return false
+		}
+	}
+
 	// Rule 2: can only vote if parent's view is greater than or equal to locked block's view.
 	if parent.View() < hs.locked.View() {
 		hs.logger.Info("VoteRule: parent too old")
